@@ -63,14 +63,15 @@ type TVariant struct {
 }
 
 type TResult struct {
-	Overlap  bool       `json:"overlap,omitempty"`
-	ID       any        `json:"id"`
-	TFacts   [][]any    `json:"tfacts"`
-	Now      int64      `json:"now"`
-	Rules    []TRule    `json:"rules"`
-	Text     string     `json:"text"`
-	Variants []TVariant `json:"variants"`
-	Runs     int        `json:"runs"`
+	Coalesced bool       `json:"coalesced,omitempty"`
+	Overlap   bool       `json:"overlap,omitempty"`
+	ID        any        `json:"id"`
+	TFacts    [][]any    `json:"tfacts"`
+	Now       int64      `json:"now"`
+	Rules     []TRule    `json:"rules"`
+	Text      string     `json:"text"`
+	Variants  []TVariant `json:"variants"`
+	Runs      int        `json:"runs"`
 }
 
 func tsText(i int64) string {
@@ -191,6 +192,65 @@ func tInterval(iv ast.Interval) []any {
 	return []any{lo, hi}
 }
 
+// runTCaseCoalesced: the base facts are evaluated into the temporal store first (facts-only program), every predicate
+// is coalesced through the store's API, and the rules run afterwards over the coalesced store.
+func runTCaseCoalesced(c TCase, factOrder []int, storeKind string) (v TVariant) {
+	defer func() {
+		if r := recover(); r != nil {
+			v.Outcome, v.Err = "panic", fmt.Sprint(r)
+		}
+	}()
+	v.Got, v.TGot = []mgjson.Atom{}, []any{}
+	ts := factstore.NewTemporalStore()
+	store := newStore(storeKind)
+	ro := make([]int, len(c.Rules))
+	for i := range ro {
+		ro[i] = i
+	}
+	for phase, text := range []string{tprogramText(c, nil, factOrder), tprogramText(c, ro, nil)} {
+		unit, err := parse.Unit(strings.NewReader(text))
+		if err != nil {
+			v.Outcome, v.Err = "parse_err", err.Error()
+			return
+		}
+		info, err := analysis.AnalyzeOneUnit(unit, nil)
+		if err != nil {
+			v.Outcome, v.Err = "analysis_err", err.Error()
+			return
+		}
+		opts := []engine.EvalOption{engine.WithTemporalStore(ts), engine.WithEvaluationTime(teBase.Add(time.Duration(c.Now) * time.Second)), engine.WithCreatedFactLimit(10000)}
+		if err := engine.EvalProgram(info, store, opts...); err != nil {
+			v.Outcome, v.Err = "eval_err", err.Error()
+			return
+		}
+		if phase == 0 {
+			for _, p := range ts.ListPredicates() {
+				if err := ts.Coalesce(p); err != nil {
+					v.Outcome, v.Err = "eval_err", "coalesce: "+err.Error()
+					return
+				}
+			}
+		}
+	}
+	v.Outcome = "ok"
+	for _, p := range store.ListPredicates() {
+		store.GetFacts(ast.NewQuery(p), func(a ast.Atom) error { v.Got = append(v.Got, tAtom(a)); return nil })
+	}
+	sort.Slice(v.Got, func(i, j int) bool { return mgjson.Key(v.Got[i]) < mgjson.Key(v.Got[j]) })
+	var tg []any
+	for _, p := range ts.ListPredicates() {
+		ts.GetAllFacts(ast.NewQuery(p), func(tf factstore.TemporalFact) error {
+			tg = append(tg, []any{tAtom(tf.Atom), tInterval(tf.Interval)})
+			return nil
+		})
+	}
+	sort.Slice(tg, func(i, j int) bool { return mgjson.Key(tg[i]) < mgjson.Key(tg[j]) })
+	if tg != nil {
+		v.TGot = tg
+	}
+	return
+}
+
 func runTCase(c TCase, text string, storeKind string, determ bool) (v TVariant) {
 	defer func() {
 		if r := recover(); r != nil {
@@ -304,15 +364,67 @@ func runTEvalPerms(c TCase, repeat, perms int) TResult {
 	return res
 }
 
+// runTEvalCoalesced: the coalesce-first variant under the given, the reversed and perms pseudo-random insertion orders.
+func runTEvalCoalesced(c TCase, repeat, perms int) TResult {
+	res := TResult{ID: c.ID, TFacts: c.TFacts, Now: c.Now, Rules: c.Rules, Coalesced: true}
+	if res.TFacts == nil {
+		res.TFacts = [][]any{}
+	}
+	n := len(c.TFacts)
+	id, rev, ro := make([]int, n), make([]int, n), make([]int, len(c.Rules))
+	for i := range id {
+		id[i], rev[i] = i, n-1-i
+	}
+	for i := range ro {
+		ro[i] = i
+	}
+	res.Text = tprogramText(c, ro, id)
+	orders := [][]int{id, rev}
+	h := int64(c.Now)
+	for _, b := range []byte(res.Text) {
+		h = h*131 + int64(b)
+	}
+	prnd := rand.New(rand.NewSource(h))
+	for k := 0; k < perms; k++ {
+		orders = append(orders, prnd.Perm(n))
+	}
+	idx := map[string]int{}
+	k := 0
+	for rep := 0; rep < repeat; rep++ {
+		for oi, o := range orders {
+			kind := storeKinds[k%len(storeKinds)]
+			k++
+			v := runTCaseCoalesced(c, o, kind)
+			res.Runs++
+			cfg := fmt.Sprintf("coalesced-order%d:%s", oi, kind)
+			key := v.Outcome + "|" + mgjson.Key(v.Got) + "|" + mgjson.Key(v.TGot)
+			if i, ok := idx[key]; ok {
+				if len(res.Variants[i].Cfgs) < 8 {
+					res.Variants[i].Cfgs = append(res.Variants[i].Cfgs, cfg)
+				}
+				continue
+			}
+			v.Cfgs = []string{cfg}
+			idx[key] = len(res.Variants)
+			res.Variants = append(res.Variants, v)
+		}
+	}
+	return res
+}
+
 // cmdTEval: vh teval --in cases.ndjson --out results.ndjson [--repeat N]
 func cmdTEval(args []string) error {
 	f := parseFlags(args)
 	repeat := f.int("repeat", 2)
 	perms := f.int("perms", 0)
+	coalesce := f.bool("coalesce")
 	return parallelMap(f.str("in", "-"), f.str("out", "-"), f.int("workers", 0), func(line []byte) (any, error) {
 		var c TCase
 		if err := jsonDecode(line, &c); err != nil {
 			return nil, err
+		}
+		if coalesce {
+			return runTEvalCoalesced(c, repeat, perms), nil
 		}
 		return runTEvalPerms(c, repeat, perms), nil
 	})
